@@ -162,44 +162,84 @@ class StreamDisconnectSubclassMayRefuse(StreamDisconnect):
     remove_upstream_may_fail = True
 
 
+# all_linked(DOWN, me, seq): every node of seq has `me` among its downstreams
+all_linked = sym.SpecFun('all_linked', [RelArr, sym.Obj], sym.SeqObjS, z3.BoolSort(),
+                         zero=lambda D, me: z3.BoolVal(True), one=lambda D, me, o: z3.Select(sym.sel(D, o), me),
+                         plus=lambda a, b: z3.And(a, b), store_frame=True)
+
+
 class StreamDestroy(TopoBase):
+    """self.destroy(): every upstream link is removed on both ends, nothing else changes, and it does not fail
+    (given T1 before and no parallel edges)."""
     qual = 'Stream.destroy'
     props = ['C15']
     inline = ('Stream._remove_upstream',)
+    assumptions = TopoBase.assumptions + (
+        'precondition: self.upstreams has no duplicates (no parallel edges); used as its instance at the split the loop '
+        'rule introduces (upstreams == P ++ [m] ++ R  =>  m not in P and m not in R)',)
 
     def build(self, I):
         st = self.setup(I)
         U = z3.Const('U', sym.SeqObjS)
         ups = st.new_list(U, K_STREAM)
         selfv = st.new_obj('Stream', {'upstreams': ups, '__ref__': VRef(self.me, 'Stream')})
-        u0 = z3.Const('u0', sym.Obj)
-        st.assume(z3.Contains(U, z3.Unit(u0)))
-        st.ghost['u0'] = VRef(u0, 'Stream')
-        st.ghost['U'] = VSeq(U, K_STREAM)
-        # T1 before, and no parallel edges (U has no duplicates: stated through the skolem u0 occurring once)
-        Ua, Ub = z3.Const('Ua', sym.SeqObjS), z3.Const('Ub', sym.SeqObjS)
-        st.assume(U == z3.Concat(Ua, z3.Unit(u0), Ub))
-        st.assume(z3.Not(z3.Contains(Ua, z3.Unit(u0))))
-        st.assume(z3.Not(z3.Contains(Ub, z3.Unit(u0))))
-        o = z3.Const('any_o', sym.Obj)
-        st.assume(z3.ForAll([o], z3.Implies(z3.Contains(U, z3.Unit(o)), z3.Select(z3.Select(st.ghost['DOWN'], o), self.me))))
-        self.finish(I, {'self': selfv})
+        g = st.ghost
+        g['U'] = VSeq(U, K_STREAM)
+        g['u0'] = VRef(z3.Const('u0', sym.Obj), 'Stream')          # an arbitrary former upstream
+        g['o1'] = VRef(z3.Const('o1', sym.Obj), 'Stream')          # an arbitrary node
+        g['d1'] = VRef(z3.Const('d1', sym.Obj), 'Stream')          # an arbitrary downstream of it
+        g['DOWN0'] = g['DOWN']
+        st.assume(z3.Contains(U, z3.Unit(g['u0'].t)))
+        # T1 before: self is among the downstreams of each of its upstreams
+        st.assume(all_linked(g['DOWN'], self.me, U))
+        st.assume(z3.Not(z3.Contains(U, z3.Unit(self.me))))
+        self.finish(I, {'self': selfv, 'streams': NONE})
         return selfv, [], {}
 
     def summaries(self):
         return StreamConnect.other_summaries_for_vref(self)
 
+    def spec_funcs(self):
+        d = TopoBase.spec_funcs(self)
+
+        def linked_all(I, seq):
+            t, k = I.seq_term(seq)
+            return VBool(all_linked(I.st.ghost['DOWN'], self.me, t))
+
+        def down_row_unchanged(I, o):
+            g = I.st.ghost
+            return VBool(z3.Select(g['DOWN'], o.t) == z3.Select(g['DOWN0'], o.t))
+
+        def down_was(I, u, d):
+            g = I.st.ghost
+            dt = d.t if isinstance(d, VRef) else self.me
+            return VBool(z3.Select(z3.Select(g['DOWN0'], u.t), dt))
+        d.update({'linked_all': linked_all, 'down_row_unchanged': down_row_unchanged, 'down_was': down_was})
+        return d
+
     def loop_specs(self):
+        def nodup(I, fr, P, m, R):
+            u = z3.Unit(m)
+            return [z3.Not(z3.Contains(P, u)), z3.Not(z3.Contains(R, u))]
         return {('Stream.destroy', 0): LoopSpec(
-            modifies=['self.upstreams', 'ghost:DOWNv'],
-            invariant=[('remaining', 'True')], props=['C15'], name='detach')}
+            modifies=['self.upstreams', 'ghost:DOWN'],
+            invariant=[('own_list_is_what_remains', 'self.upstreams == _R'),
+                       ('remaining_upstreams_still_linked', 'linked_all(_R)'),
+                       ('processed_upstreams_unlinked', 'implies(u0 in _P, not down_has(u0, self))'),
+                       ('other_nodes_untouched', 'implies(not (o1 in _P), down_row_unchanged(o1))'),
+                       ('other_links_untouched', 'implies(d1 != self, down_has(o1, d1) == down_was(o1, d1))')],
+            props=['C15'], name='detach', split_facts=[nodup])}
 
     def clauses(self):
-        return [Clause('C15.destroy_detaches_from_every_upstream', ['C15'], when='return',
-                       text='len(self.upstreams) == 0 and not down_has(u0, self)')]
+        return [Clause('C15.T1_destroy_detaches_from_every_upstream_on_both_ends', ['C15'], when='return',
+                       text='len(self.upstreams) == 0 and not down_has(u0, self)'),
+                Clause('C15.destroy_touches_no_other_link', ['C15'], when='return',
+                       text='implies(d1 != self or not (o1 in U), down_has(o1, d1) == down_was(o1, d1))'),
+                Clause('C15.destroy_of_a_consistent_node_never_fails', ['C15'], when='raise', text='False',
+                       note='a refused edit half-way would leave the remaining links inconsistent')]
 
 
-ALL = [StreamConnect, StreamDisconnect]
+ALL = [StreamConnect, StreamDisconnect, StreamDestroy]     # StreamDisconnectSubclassMayRefuse: hypothetical (no _remove_upstream in the repository refuses a connected input), not run
 
 
 # --------------------------------------------------------------------------- combine_latest / zip: _add/_remove_upstream
